@@ -92,9 +92,10 @@ def rows(pr):
     for c, (mname, datefmt) in PLUGINS.items():
         mod = pr.tree.modules[mname]
         q = mname + ".Generator.__generate"
-        f = A.func_node(pr.tree, q)
+        F = A.Fn(pr.tree, q)
+        f = F.node
         loops = A.loops_of(f) if f else []
-        main = next((lp for lp in loops if ast.unparse(lp.iter) == "gain_loss_set"), None)
+        main = next((lp for lp in loops if any(isinstance(c2, ast.Call) and isinstance(c2.func, ast.Attribute) and c2.func.attr == "_fill_cell" for c2 in ast.walk(lp))), None)
         w = A.Writer(f, main, row_expr="row_indexes[sheet.name]") if main is not None else None
         sheet = "output_file.sheets[_TYPE_TO_SHEET[ELT.taxable_event.transaction_type]]"
         lot = "ELT.acquired_lot"
@@ -105,29 +106,27 @@ def rows(pr):
         out += A.writer_vcs(q, mod.relpath, w, "gain_loss_set", b)
         if w is not None:
             sheets = {cell[5] for cell in w.cells}
-            out.append(A.bvc(q, "writer", "every_cell_goes_to_the_sheet_of_the_fractions_type", sheets == {sheet}, mod.relpath, str(sheets)[:300]))
-            out.append(A.bvc(q, "writer", "row_counter_is_the_one_of_that_sheet", w.row_norm == f"row_indexes[{sheet}.name]", mod.relpath, w.row_norm))
+            out.append(A.bvc(q, "writer", "every_cell_goes_to_the_sheet_of_the_fractions_type", len(sheets) == 1 and A.expr_eq(sheet, next(iter(sheets)), w.scope), mod.relpath, str(sheets)[:300]))
+            out.append(A.bvc(q, "writer", "row_counter_is_the_one_of_that_sheet", A.expr_eq(f"row_indexes[{sheet}.name]", w.row_norm, w.scope), mod.relpath, w.row_norm))
         # sizing, before any row is written
-        src = ast.unparse(f) if f else ""
-        out.append(A.bvc(q, "writer", "each_sheet_grows_by_MIN_ROWS_plus_count_plus_one_per_type",
-                         "sheet.append_rows(self.MIN_ROWS + gain_loss_set.get_transaction_type_count(sheet_type) + 1)" in src and
-                         "sheet_types: Tuple[TransactionType, ...] = _SHEET_TO_TYPES[sheet.name]" in src and main is not None and
-                         all(lp.lineno < main.lineno for lp in loops if lp is not main), mod.relpath))
-        g = A.func_node(pr.tree, mname + ".Generator.generate")
-        gs = ast.unparse(g) if g else ""
+        sizing = F.has("for sheet in output_file.sheets:\n    if sheet.name == 'Legend':\n        continue\n    sheet_types = _SHEET_TO_TYPES[sheet.name]\n    for sheet_type in sheet_types:\n"
+                       "        sheet.append_rows(self.MIN_ROWS + gain_loss_set.get_transaction_type_count(sheet_type) + 1)")
+        out.append(A.bvc(q, "writer", "each_sheet_grows_by_MIN_ROWS_plus_count_plus_one_per_type", sizing and main is not None and all(lp.lineno < main.lineno for lp in loops if lp is not main), mod.relpath))
+        G = A.Fn(pr.tree, mname + ".Generator.generate")
+        g = G.node
         gl = A.loops_of(g) if g else []
-        asset_loop = next((lp for lp in gl if ast.unparse(lp.iter) == "asset_to_computed_data.items()"), None)
-        counters_once = g is not None and asset_loop is not None and "row_indexes: Dict[str, int] = {sheet_name.value: self.HEADER_ROWS for sheet_name in SheetNames}" in gs and \
-            not any(isinstance(n, ast.Name) and n.id == "row_indexes" and isinstance(n.ctx, ast.Store) for n in ast.walk(asset_loop)) and \
-            "self.__generate(output_file, asset, computed_data.gain_loss_set, row_indexes)" in ast.unparse(asset_loop)
-        out.append(A.bvc(mname + ".Generator.generate", "writer", "row_counters_created_once_and_shared_by_all_assets", counters_once, mod.relpath))
+        asset_loop = next((lp for lp in gl if A.expr_eq("asset_to_computed_data.items()", ast.unparse(lp.iter), G.scope)), None) if G else None
+        counters_once = asset_loop is not None and G.has("row_indexes = {sheet_name.value: self.HEADER_ROWS for sheet_name in SheetNames}") and \
+            A.has(asset_loop, "self.__generate(output_file, asset, computed_data.gain_loss_set, row_indexes)", G.mod, scope=G.scope) and \
+            not any(isinstance(n, ast.Name) and isinstance(n.ctx, ast.Store) and n.id == G.scope.env.get("row_indexes", "row_indexes") for n in ast.walk(asset_loop))
+        out.append(A.bvc(G.qual, "writer", "row_counters_created_once_and_shared_by_all_assets", bool(counters_once), mod.relpath))
         wl = A.Writer(g, asset_loop, row_expr="row_index") if asset_loop is not None else None
-        out.append(A.bvc(mname + ".Generator.generate", "writer", "every_asset_is_generated_no_break_continue",
-                         wl is not None and not [s for s in wl.skips if s[0] != "raise"], mod.relpath, str(wl.skips if wl else "")))
-        out.append(A.bvc(mname + ".Generator.generate", "writer", "only_sheets_whose_counter_never_moved_are_removed",
-                         "if sheet_name != 'Legend' and row_indexes[sheet_name] == Generator.HEADER_ROWS:\n            sheet_indexes_to_remove.append(index)" in gs and
-                         "for index in reversed(sheet_indexes_to_remove):\n        del output_file.sheets[index]" in gs, mod.relpath))
-        out.append(A.bvc(mname + ".Generator.generate", "writer", "report_is_saved_after_all_assets", gs.rstrip().splitlines()[-2].strip() == "output_file.save()" or "output_file.save()" in gs, mod.relpath))
+        out.append(A.bvc(G.qual, "writer", "every_asset_is_generated_no_break_continue",
+                         wl is not None and not [s2 for s2 in wl.skips if s2[0] != "raise"], mod.relpath, str(wl.skips if wl else "")))
+        out.append(A.bvc(G.qual, "writer", "only_sheets_whose_counter_never_moved_are_removed",
+                         G.has("for sheet_name in output_file.sheets.names():\n    if sheet_name != 'Legend' and row_indexes[sheet_name] == Generator.HEADER_ROWS:\n        sheet_indexes_to_remove.append(index)\n    index += 1") and
+                         G.has("for index in reversed(sheet_indexes_to_remove):\n    del output_file.sheets[index]"), mod.relpath))
+        out.append(A.bvc(G.qual, "writer", "report_is_saved_after_all_assets", G.order("self.__generate(ANY)" if False else "for asset, computed_data in asset_to_computed_data.items():\n    ...", "output_file.save()"), mod.relpath))
     return out
 
 
